@@ -170,14 +170,7 @@ theorem createCollection_refines (s : Spec.State) (σ : KVS) (hw : WF s) (hr : R
         rcases List.mem_cons.1 ((hperm.mem_iff).1 hp) with e | e
         · rw [e]; exact hc
         · exact hw.namesClean p e
-      · have : ((Spec.insert c ({ docs := [] } : Spec.Coll) s).map (·.1)).Perm (c :: s.map (·.1)) := by
-          simpa using hperm.map (·.1)
-        rw [this.nodup_iff]
-        apply List.nodup_cons.2
-        refine ⟨?_, hw.namesDistinct⟩
-        intro hmem
-        obtain ⟨p, hp, hpc⟩ := List.mem_map.1 hmem
-        exact (lookup_none_iff c s).1 hl p hp hpc
+      · exact Spec.keysSorted_insert c _ s hw.namesSorted
       · intro p hp
         rcases List.mem_cons.1 ((hperm.mem_iff).1 hp) with e | e
         · rw [e]; exact ⟨by simp, by simp, by simp, by simp, by simp⟩
